@@ -34,9 +34,9 @@ Lost(p) == [p EXCEPT !.job = [IdleJob EXCEPT !.ph = "lost", !.tid = p.job.tid]]
 
 StageOf(p) ==
   LET j == p.job IN
-  IF j.k \in 1..NPass THEN "pass" \o ToString(j.k)
-  ELSE IF j.k = NPass + 1 THEN (IF j.fe THEN "back-end" ELSE "deferred")
-  ELSE IF j.ph = "err" /\ j.unread # {} THEN "read"
+  IF j.ph = "err" THEN j.at
+  ELSE IF j.k \in 1..NPass THEN "pass" \o ToString(j.k)
+  ELSE IF j.k = NPass + 1 THEN "back-end"
   ELSE "module-" \o j.cur.st
 
 (* ----- Pure on recorded outputs ----------------------------------------- *)
